@@ -433,7 +433,28 @@ def common_obligations(res, pid):
             return False
     a, raw = check_assumptions(pid)
     res.obligations += a
+    if getattr(res, "tier", "quick") == "thorough":
+        res.obligations.append(coqchk(pid))
     return all(o["ok"] for o in res.obligations)
+
+
+def coqchk(pid):
+    """thorough tier: the compiled files of the property's modules and everything they depend on are re-checked by the
+    independent checker coqchk, which also reports the axioms, type-in-type, unsafe fixpoints and assumed positivity"""
+    reg = load_props(pid)
+    mods = sorted({"Olric." + t["module"] for t in reg["theorems"]})
+    t0 = time.time()
+    with Lock("coq"):
+        p = run(["timeout", "3000", "coqchk", "-silent", "-o", "-Q", COQ, "Olric"] + mods, cwd=COQ, timeout=3100)
+    out = p.stdout + p.stderr
+    flat = " ".join(out.split())
+    clean = all(("* %s: <none>" % k) in flat for k in (
+        "Axioms", "Constants/Inductives relying on type-in-type", "Constants/Inductives relying on unsafe (co)fixpoints",
+        "Inductives whose positivity is assumed"))
+    ok = p.returncode == 0 and clean
+    log("[coqchk] %s rc=%d clean=%s in %.0fs" % (" ".join(mods), p.returncode, clean, time.time() - t0))
+    return {"theorem": "coqchk " + " ".join(mods), "ok": ok, "axioms": "none" if clean else None,
+            "detail": None if ok else out[-1500:], "seconds": round(time.time() - t0)}
 
 
 def rng_for(seed, *salt):
